@@ -342,7 +342,8 @@ func execFedcheck(op string, args []string) (res string) {
 	defer func() {
 		if r := recover(); r != nil {
 			if _, ok := r.(fcDiverge); ok {
-				res = "diverge"
+				// regression guard for 778c3d3: reported in the panic class so that it is always a concrete violation
+				res = "panic:nontermination:scripted provider called more than " + strconv.Itoa(fcMaxCalls) + " times (checkAllowedByAuthEvents retry loop)"
 				return
 			}
 			panic(r)
